@@ -1,6 +1,7 @@
 SPECIFICATION Spec
 CONSTANTS
   MaxBase = 3
-  MaxOvr = 2
+  MaxOvr = 3
+  Small = 1
 INVARIANT ImplMeetsDecl DedupIsDeclarative
 CHECK_DEADLOCK FALSE
